@@ -110,6 +110,9 @@ func init() {
 			for i := range Corpus {
 				s = append(s, fmt.Sprintf("edit:%d", i))
 			}
+			for i := range c03Postfix {
+				s = append(s, fmt.Sprintf("postfix:%d", i))
+			}
 			if th {
 				for i := range Corpus {
 					if len(Corpus[i]) <= 40 {
@@ -120,7 +123,7 @@ func init() {
 			return s
 		},
 		Run:  c03Run,
-		Rule: "token sequences over a 60-spelling vocabulary (every token.Type, malformed numbers, unterminated strings, illegal bytes, tag delimiters) of length <=k in 12 framings (closed/unclosed/reopened tags, inside if/for/fn/helper blocks); 18 nesting families open and closed for every depth 1..256; every truncation and single-byte edit (delete, insert, replace by 19 bytes) of a 35-template corpus, pairs of edits in the thorough tier. Oracle: Parse returns (template with program, nil) or (_, non-empty error); no panic, step budget not exhausted, AST printers do not panic on accepted programs. Non-trivial: at least one token/edit.",
+		Rule: "token sequences over a 60-spelling vocabulary (every token.Type, malformed numbers, unterminated strings, illegal bytes, tag delimiters) of length <=k in 12 framings (closed/unclosed/reopened tags, inside if/for/fn/helper blocks); 18 nesting families open and closed for every depth 1..256; every truncation and single-byte edit (delete, insert, replace by 19 bytes) of a 35-template corpus, pairs of edits in the thorough tier; grammar-aware postfix chains (11 heads x every sequence of <=4/5 postfix operators from 17: index/member/call/chained call/string-or-array after dot/assignment/unbalanced brackets) in 5 framings. Oracle: Parse returns (template with program, nil) or (_, non-empty error); no panic, step budget not exhausted, AST printers do not panic on accepted programs. Non-trivial: at least one token/edit.",
 		Bound: func(th bool) string {
 			if th {
 				return "k=4 token sequences x 12 framings; nesting 1..256; edit distance <=2 on corpus templates of <=40 bytes, <=1 on the rest"
@@ -131,9 +134,37 @@ func init() {
 	})
 }
 
+// c03Postfix: grammar-aware postfix chains (index, member, call, chained call, assignment)
+var c03Postfix = []string{"[0]", `["k"]`, "[i]", ".b", "()", "(1)", ".b()", ".b(1)", ".b[0]", `. "x"`, ".[1, 2]", " = 1", "[", "(", ".", "]", ")"}
+
+var c03Heads = []string{"a", "a.b", "f()", "[1, 2]", `{"k": 1}`, `"s"`, "1", "(a)", "fn(x) { return x }", "break", "nil"}
+
 func c03Run(t *engine.T, shard string) {
 	kind, arg, _ := strings.Cut(shard, ":")
 	switch kind {
+	case "postfix":
+		var first int
+		fmt.Sscan(arg, &first)
+		k := 4
+		if t.Thorough {
+			k = 5
+		}
+		var rec func(chain string, n int)
+		rec = func(chain string, n int) {
+			for _, h := range c03Heads {
+				for _, fr := range []struct{ pre, post string }{{"<%= ", " %>"}, {"<% ", " %>"}, {"<%= if (", ") { %>x<% } %>"}, {"<%= for (v) in ", " { %>x<% } %>"}, {"<% let z = ", " %>"}} {
+					src := fr.pre + h + chain + fr.post
+					t.Case("postfix "+fmt.Sprintf("%q", src), true, func() (string, *engine.Fail) { return c03Parse(src) })
+				}
+			}
+			if n == k {
+				return
+			}
+			for _, px := range c03Postfix {
+				rec(chain+px, n+1)
+			}
+		}
+		rec(c03Postfix[first], 1)
 	case "seq":
 		k := 3
 		if t.Thorough {
